@@ -332,6 +332,83 @@ func (lv *c02Live) scenario(m *vk.M, tag string, sc c02Script) bool {
 	return true
 }
 
+// behindParked: the server's single timeout-interceptor instance holds a call
+// whose handler is parked on the harness gate after the client's own (short)
+// deadline ended that call; a second, non-blocking call on the same server must
+// be answered with its handler's result meanwhile.
+func (lv *c02Live) behindParked(m *vk.M, tag string, short time.Duration) bool {
+	if atomic.LoadInt64(&c02Hangs) > 0 {
+		return false
+	}
+	first := &c02Run{id: atomic.AddInt64(&c02NextID, 1), sc: c02Script{Kind: "late"}, gate: make(chan struct{}), blocked: make(chan struct{}), done: make(chan struct{})}
+	lv.svc.runs.Store(first.id, first)
+	defer lv.svc.runs.Delete(first.id)
+	defer first.release()
+	ctx, cancel := context.WithTimeout(context.Background(), short)
+	_, err := lv.client.Deposit(ctx, &mock.DepositRequest{Amount: float32(first.id)})
+	cancel()
+	if code := status.Code(err); code != codes.DeadlineExceeded && code != codes.Canceled {
+		m.Inconclusive("rpcserver behind-parked: first call ended with %v", err)
+		return false
+	}
+	atomic.AddInt64(&lv.fails, 1)
+	t := time.NewTimer(c02Watchdog)
+	defer t.Stop()
+	select {
+	case <-first.blocked:
+	case <-t.C:
+		m.Inconclusive("rpcserver behind-parked: first handler did not park (entries %d)", atomic.LoadInt32(&first.entries))
+		return false
+	}
+	second := &c02Run{id: atomic.AddInt64(&c02NextID, 1), sc: c02Script{Kind: "fast"}, gate: make(chan struct{}), blocked: make(chan struct{}), done: make(chan struct{})}
+	lv.svc.runs.Store(second.id, second)
+	defer lv.svc.runs.Delete(second.id)
+	type out struct {
+		resp *mock.DepositResponse
+		err  error
+	}
+	ch := make(chan out, 1)
+	go func() {
+		c2, cancel2 := context.WithTimeout(context.Background(), 3*c02Watchdog)
+		defer cancel2()
+		r, e := lv.client.Deposit(c2, &mock.DepositRequest{Amount: float32(second.id)})
+		ch <- out{r, e}
+	}()
+	desc := fmt.Sprintf("case=0;server=%s;timeout=%v;first=%d(parked after client deadline %v);second=%d", tag, lv.tmo, first.id, short, second.id)
+	p := time.NewTimer(c02Patience)
+	defer p.Stop()
+	select {
+	case o := <-ch:
+		if atomic.LoadInt32(&second.entries) == 0 && o.err != nil && (status.Code(o.err) == codes.Unknown || status.Code(o.err) == codes.Unavailable) {
+			m.Count("breaker_reject_tolerated", 1)
+			return false
+		}
+		if o.err != nil || o.resp == nil || !o.resp.GetOk() {
+			m.Violate("C02:rpcserver:second-call-behind-parked:not-handler-result", desc, "first call's handler still parked; second call: resp=%v err=%v, want (Ok:true, nil)", o.resp, o.err)
+			return false
+		}
+	case <-p.C:
+		atomic.AddInt64(&c02Hangs, 1)
+		if atomic.LoadInt32(&second.entries) == 0 {
+			var dump strings.Builder
+			for _, gr := range vk.GoroutinesIn("serverinterceptors.") {
+				if dump.Len() < 6000 {
+					dump.WriteString(gr + "\n\n")
+				}
+			}
+			m.Violate("C02:rpcserver:second-call-blocked-behind-parked", desc, "a call whose handler is parked on the harness gate occupies the server's timeout interceptor; a second non-blocking call issued %v ago has not entered its handler. Goroutines:\n%s", c02Patience, dump.String())
+		} else {
+			m.Inconclusive("rpcserver behind-parked: second call entered but unanswered after %v", c02Patience)
+		}
+		first.release()
+		return false
+	}
+	first.release()
+	m.Count("second_call_served_behind_parked", 1)
+	m.Case("rpcserver|behind-parked", true)
+	return true
+}
+
 var c02Sampled sync.Map
 
 var c02Hangs int64
@@ -468,6 +545,9 @@ func TestVerifC02RPCServer(t *testing.T) {
 		if i%2 == 0 {
 			long.streamScenario(m, "long", c02Script{Kind: []string{"stream-panic", "stream-send-panic"}[(i/2)%2]})
 			long.streamScenario(m, "long", c02Script{Kind: "stream-ok"})
+		}
+		if i%4 == 1 {
+			long.behindParked(m, "long", short)
 		}
 		// the server still answers
 		long.scenario(m, "long", c02Script{Kind: "fast"})
